@@ -1778,10 +1778,10 @@ def r3_ordering_roles(corpus: Corpus, rep: Report, tier: str):
         rep.violation("C05.R3", k, base.site(init[0]), f"the level map is initialised as {short(init[0].value, 40)}: level 0 must be the document so that a first heading of any level has a parent")
     own = {upd.fq}
     rep.ok("C05.R3", f"{upd.fq}|writes {LEVEL_MAP}", upd.site(), "the level-state update (simulated above)")
-    for fi in _all_plain_functions(corpus):
-        if fi.is_generator() and fi.parent_func is not None and fi.parent_func.name == "nested_render_text" and writes_attr(fi.local_nodes(), LEVEL_MAP):
+    for fi, _call in _restoring_cms(corpus, base, base.func(f"{RENDERER}.nested_render_text"))[1]:
+        if writes_attr(fi.local_nodes(), LEVEL_MAP):
             own.add(fi.fq)
-            rep.ok("C05.R3", f"{fi.fq}|writes {LEVEL_MAP}", fi.site(), "restore after a nested render (judged by R4)")
+            rep.ok("C05.R3", f"{fi.fq}|writes {LEVEL_MAP}", fi.site(), "the save/re-root/restore of nested_render_text's context manager (judged by R4)")
     _judge_foreign_writers(corpus, rep, "C05.R3", "map", own)
     rep.expect_min("C05.R3", 8, "argument roles, selection, attach, map simulation, 2 warning items, initial map, >=3 writers")
 
@@ -1900,8 +1900,18 @@ def _unpaired_write(fi: FunctionInfo, w: ast.AST, cell: str) -> str | None:
             if isinstance(r, ast.Assign) and len(r.targets) == 1 and isinstance(r.value, ast.Name) and r.value.id == name and r is not w:
                 t = r.targets[0]
                 same = (cell == "offset" and is_attr(t, OFFSET)) or (cell == "map" and is_attr(t, LEVEL_MAP)) or (cell == "root" and is_temp_root_lookup(t) == "item")
-                if same and cfg.postdominates(cfg.stmt_of(r), wst):
+                rst_ = cfg.stmt_of(r)
+                if same and cfg.postdominates(rst_, wst):
                     return None
+                # the same condition guards change and restore (e.g. `if root is not None:` before and after a yield):
+                # every path from the change to the exit meets the restore or leaves through the other edge of that condition
+                if same and _guard_set(cfg, rst_) == _guard_set(cfg, wst) and _guard_set(cfg, wst):
+                    wrong = set()
+                    for d_ in cfg.dom().get(rst_, set()):
+                        if isinstance(d_, tuple) and d_[0] in ("T", "F") and isinstance(d_[1], ast.If):
+                            wrong.add(("F" if d_[0] == "T" else "T", d_[1]))
+                    if not cfg.paths_avoiding(wst, EXIT, lambda n: n is rst_ or n in wrong):
+                        return None
     if isinstance(w, ast.AugAssign) and isinstance(w.op, ast.Add):
         for r in fi.local_nodes():
             if isinstance(r, ast.AugAssign) and isinstance(r.op, ast.Sub) and unparse(r.target) == unparse(w.target) and unparse(r.value) == unparse(w.value) and cfg.postdominates(cfg.stmt_of(r), wst):
@@ -2090,18 +2100,13 @@ def _is_offset_option(v: ast.expr) -> bool:
     ) or (isinstance(v, ast.Subscript) and is_attr(v.value, "options") and isinstance(v.slice, ast.Constant) and v.slice.value == "heading-offset")
 
 
-@rule("C05.R4")
-def r4_save_restore(corpus: Corpus, rep: Report, tier: str):
-    rep.rule("C05.R4", "nested renders save and restore heading offset / level map (by copy) / temp root; no offset argument keeps the enclosing offset, an include adds its option to it; map re-rooted at a temp root, passed only for match_titles; level = tag digit + offset")
-    base, rh, upd = _renderer_funcs(corpus)
-    nrt = base.func(f"{RENDERER}.nested_render_text")
-    rep.saw_function(nrt.fq)
-    # the context manager around _render_tokens
+def _restoring_cms(corpus: Corpus, base, nrt: FunctionInfo):
+    """(_render_tokens calls of nested_render_text, [(context manager, its call)] wrapped around them, calls not wrapped).
+    The context manager is a @contextmanager generator - nested function or renderer method - that writes the heading offset."""
     rcalls = method_calls(nrt.local_nodes(), "_render_tokens")
     if not rcalls:
         raise Unsupported("nested_render_text does not call _render_tokens")
-    cms: list[FunctionInfo] = []
-    k = f"{nrt.fq}|_render_tokens runs inside the restoring context manager"
+    cms: list[tuple[FunctionInfo, ast.Call]] = []
     unwrapped = []
     for c in rcalls:
         found = None
@@ -2117,26 +2122,78 @@ def r4_save_restore(corpus: Corpus, rep: Report, tier: str):
                         elif isinstance(ce.func, ast.Attribute) and isinstance(ce.func.value, ast.Name) and ce.func.value.id == "self":
                             f = corpus.lookup_method(base.cls(RENDERER), ce.func.attr)
                         if f is not None and f.is_generator() and any(d.endswith("contextmanager") for d in f.decorators()) and writes_attr(f.local_nodes(), OFFSET):
-                            found = f
+                            found = (f, ce)
             p = parent(p)
         if found is None:
             unwrapped.append(c)
-        elif found not in cms:
+        elif found[0] not in [x for x, _ in cms]:
             cms.append(found)
+    return rcalls, cms, unwrapped
+
+
+def _post_yield_stmts(fi: FunctionInfo) -> list[ast.stmt]:
+    """Statements of a generator that run after its (single) yield, in source order; plain and try/finally layouts."""
+    ys = [n for n in fi.local_nodes() if isinstance(n, (ast.Yield, ast.YieldFrom))]
+    if len(ys) != 1:
+        return []
+    cfg = get_cfg(fi)
+    yst = cfg.stmt_of(ys[0])
+    after = cfg.reachable_from(yst)
+    out = [s_ for s_ in fi.local_nodes() if isinstance(s_, ast.stmt) and s_ in cfg.succ and s_ in after and s_ is not yst]
+    out.sort(key=lambda s_: (s_.lineno, s_.col_offset))
+    return out
+
+
+@rule("C05.R4")
+def r4_save_restore(corpus: Corpus, rep: Report, tier: str):
+    rep.rule("C05.R4", "nested renders save and restore heading offset / level map (by copy) / temp root; no offset argument keeps the enclosing offset, an include adds its option to it; map re-rooted at a temp root, passed only for match_titles; level = tag digit + offset")
+    base, rh, upd = _renderer_funcs(corpus)
+    nrt = base.func(f"{RENDERER}.nested_render_text")
+    rep.saw_function(nrt.fq)
+    # the context manager around _render_tokens
+    rcalls, cms, unwrapped = _restoring_cms(corpus, base, nrt)
+    k = f"{nrt.fq}|_render_tokens runs inside the restoring context manager"
     if unwrapped:
         rep.violation("C05.R4", k, base.site(unwrapped[0]), "nested_render_text renders tokens outside the context manager that saves/restores the heading offset, level map and temp root: state set for a nested render leaks into the rest of the document")
     else:
-        rep.ok("C05.R4", k, base.site(rcalls[0]), f"with {cms[0].name}()")
+        rep.ok("C05.R4", k, base.site(rcalls[0]), f"with {cms[0][0].name}()")
     if len(cms) != 1:
         if not cms:
             return
         raise Unsupported("several restoring context managers")
-    cm = cms[0]
+    cm, cm_call = cms[0]
+    # a context manager that is a method receives nested_render_text's parameters as arguments: facts on its parameters are
+    # translated to the caller's parameter names before defaults / call sites are consulted
+    pmap: dict[str, str] = {}
+    if cm.parent_func is None:
+        cparams = [p_ for p_ in cm.params if p_ != "self"]
+        for i_, p_ in enumerate(cparams):
+            arg = cm_call.args[i_] if i_ < len(cm_call.args) and not any(isinstance(a_, ast.Starred) for a_ in cm_call.args) else kwarg(cm_call, p_)
+            if isinstance(arg, ast.Name) and arg.id in nrt.params:
+                pmap[p_] = arg.id
+            elif arg is not None:
+                raise Unsupported(f"{cm.qualname} receives `{short(arg, 30)}` for `{p_}`: not a parameter of nested_render_text")
+
+    def to_nrt(e: ast.expr) -> ast.expr:
+        if not pmap:
+            return e
+        e2 = ast.parse(ast.unparse(e), mode="eval").body
+        for n_ in ast.walk(e2):
+            if isinstance(n_, ast.Name) and n_.id in pmap:
+                n_.id = pmap[n_.id]
+        return e2
+
+    def nrt_facts(facts_):
+        return [(to_nrt(t_), pol_) for t_, pol_ in facts_]
+
     rep.saw_function(cm.fq)
     cfg = get_cfg(cm)
     for pname in nrt.params:
         if name_assignments(nrt, pname) or name_assignments(cm, pname):
             raise Unsupported(f"parameter `{pname}` of nested_render_text is rebound")
+    for pname in cm.params:
+        if name_assignments(cm, pname):
+            raise Unsupported(f"parameter `{pname}` of {cm.qualname} is rebound")
     ys = [n for n in cm.local_nodes() if isinstance(n, (ast.Yield, ast.YieldFrom))]
     if len(ys) != 1:
         raise Unsupported(f"{cm.qualname} has {len(ys)} yields")
@@ -2237,7 +2294,7 @@ def r4_save_restore(corpus: Corpus, rep: Report, tier: str):
             # whose default falsifies them and some caller relies on that default
             extra = [(t, pol) for t, pol in cfg.guards(good[0]) if (unparse(t), pol) not in gref]
             wfacts = cfg.guards(writes_pre[cell][0]) if cell in writes_pre else cfg.guards(writes_pre["root"][0])
-            witness = _caller_witness(corpus, nrt, wfacts, extra)
+            witness = _caller_witness(corpus, nrt, nrt_facts(wfacts), nrt_facts(extra))
             if witness:
                 rep.violation(
                     "C05.R4",
@@ -2257,17 +2314,17 @@ def r4_save_restore(corpus: Corpus, rep: Report, tier: str):
     off_param = None
     for w in writes_pre["offset"]:
         for n in ast.walk(w.value):
-            if isinstance(n, ast.Name) and n.id in nrt.params:
+            if isinstance(n, ast.Name) and (n.id in pmap or (not pmap and n.id in nrt.params)):
                 off_param = n.id
     if off_param is None:
         raise Unsupported("the heading offset written before the yield does not come from a parameter of nested_render_text")
-    dflt = _param_defaults(nrt).get(off_param)
+    dflt = _param_defaults(nrt).get(pmap.get(off_param, off_param))
     k = f"{cm.fq}|a nested render that passes no heading offset keeps the enclosing one"
     if not isinstance(dflt, ast.Constant):
         raise Unsupported(f"parameter `{off_param}` has no constant default")
     verdict = None
     for w in writes_pre["offset"]:
-        skipped = any(_fact_under_defaults(nrt, t, pol) is False for t, pol in cfg.guards(w))
+        skipped = any(_fact_under_defaults(nrt, t, pol) is False for t, pol in nrt_facts(cfg.guards(w)))
         if skipped:
             continue
         value = w.value if isinstance(w, ast.Assign) else ast.BinOp(left=w.target, op=w.op, right=w.value)
@@ -2604,13 +2661,7 @@ def mutants(corpus: Corpus):
     if ctx is not None:
         add("c05-rubric-not-appended", "C05.R2", base, ctx, f"{seg(base, ctx.func)}({seg(base, ctx.args[0])})", expect="attached exactly once", canary=True)
     cnc = base.func(f"{RENDERER}.current_node_context")
-    restore = None
-    seen_yield = False
-    for s in cnc.node.body:
-        if isinstance(s, ast.Expr) and isinstance(s.value, ast.Yield):
-            seen_yield = True
-        elif seen_yield and isinstance(s, ast.Assign) and is_self_attr(s.targets[0], "current_node"):
-            restore = s
+    restore = next((s for s in _post_yield_stmts(cnc) if isinstance(s, ast.Assign) and is_self_attr(s.targets[0], "current_node")), None)
     add("c05-current-node-context-no-restore", "C05.R2", base, restore, "pass", expect="current_node_context")
 
     # ---- R3 -------------------------------------------------------------
@@ -2679,19 +2730,40 @@ def mutants(corpus: Corpus):
         add("c05-map-rooted-at-level-one", "C05.R3", base, init.keys[0], "1", expect="level map starts")
 
     # ---- R4 -------------------------------------------------------------
-    cm = base.functions.get(f"{nrt.qualname}._restore")
+    _cms = _restoring_cms(corpus, base, nrt)[1]
+    cm = _cms[0][0] if len(_cms) == 1 else None
     if cm is None:
-        out.append(("c05-restore-mutants", "nested context manager not found under that name"))
+        out.append(("c05-restore-mutants", "restoring context manager of nested_render_text not found"))
     else:
-        post = False
+        post_set = set(_post_yield_stmts(cm))
         for s in walk_sorted(cm):
-            if isinstance(s, ast.Expr) and isinstance(s.value, ast.Yield):
-                post = True
-            elif post and isinstance(s, ast.Assign) and _cell_of(s.targets[0]):
+            post = s in post_set
+            if post and isinstance(s, ast.Assign) and _cell_of(s.targets[0]):
                 cell = _cell_of(s.targets[0])
                 add(f"c05-{cell}-not-restored", "C05.R4", base, s, "pass", expect=CELL_TXT[cell], canary=(cell == "offset"))
             elif not post and isinstance(s, ast.Assign) and isinstance(s.targets[0], ast.Name) and _save_kind(s.value) == ("map", "copy"):
                 add("c05-map-saved-by-reference", "C05.R4", base, s.value, f"self.{LEVEL_MAP}", expect="saved by reference")
+    # the same obligation when the context manager is a renderer method with its own parameter names (re-modelled clause):
+    # a copy of the context manager as method `_nested_state(self, ho, root)` whose offset restore is dropped, used by the `with`
+    if cm is not None and cm.parent_func is not None and len(_cms) == 1:
+        import re as _re
+        import textwrap as _tw
+
+        off_r = next((x for x in _post_yield_stmts(cm) if isinstance(x, ast.Assign) and is_self_attr(x.targets[0], OFFSET)), None)
+        anchor = base.func(f"{RENDERER}.render_children")
+        if off_r is not None and not anchor.node.decorator_list and "heading_offset" in nrt.params and "temp_root_node" in nrt.params:
+            body_src = _tw.dedent(" " * cm.node.col_offset + seg(base, cm.node))
+            body_src = body_src.replace(seg(base, off_r), "pass", 1)
+            body_src = _re.sub(r"def \w+\(\)", "def _nested_state(self, ho, root)", body_src, count=1)
+            body_src = _re.sub(r"(?<![\"'])\bheading_offset\b(?![\"'])", "ho", body_src)
+            body_src = _re.sub(r"(?<![\"'])\btemp_root_node\b(?![\"'])", "root", body_src)
+            ind_m = " " * anchor.node.col_offset
+            method = "@contextmanager\n" + _tw.indent(body_src.rstrip(), ind_m) + "\n\n" + ind_m
+            src2 = splice(base.src, anchor.node, method + seg(base, anchor.node))
+            src2 = splice(src2, _cms[0][1], "self._nested_state(heading_offset, temp_root_node)")
+            out.append(Mutant("c05-method-cm-offset-not-restored", "C05.R4", base.rel, src2, expect=CELL_TXT["offset"]))
+        else:
+            out.append(("c05-method-cm-offset-not-restored", "context manager / anchor method layout not as expected"))
     w = find_node(nrt, lambda n: isinstance(n, ast.With) and method_calls(list(ast.walk(n)), "_render_tokens"))
     if w is not None:
         add("c05-render-outside-restore", "C05.R4", base, w, seg(base, w.body[0]), expect="_render_tokens runs inside")
@@ -2748,12 +2820,7 @@ def mutants(corpus: Corpus):
         out.append(("c05-offset-added-after-rubric-branch", "level definition / section construction not found in render_heading"))
     # class: state restored under a stricter condition than it is changed
     if cm is not None:
-        post_stmts, seen_y = [], False
-        for st_ in cm.node.body:
-            if isinstance(st_, ast.Expr) and isinstance(st_.value, ast.Yield):
-                seen_y = True
-            elif seen_y:
-                post_stmts.append(st_)
+        post_stmts = _post_yield_stmts(cm)
         off_restore = next((x for x in post_stmts if isinstance(x, ast.Assign) and is_self_attr(x.targets[0], OFFSET)), None)
         root_if = next((x for x in post_stmts if isinstance(x, ast.If) and "temp_root_node" in unparse(x.test)), None)
         if off_restore is not None and root_if is not None and root_if.lineno > off_restore.lineno:
